@@ -210,3 +210,71 @@ def structural_models(draw, min_rx=1, max_rx=5, types=ref.PROP_TYPES, delay_prob
     else:
         x0 = {s: draw(st.one_of(st.integers(0, 12).map(float), nice(0, 12))) for s in species}
     return b.spec(x0)
+
+
+# ---------------------------------------------------------------------------------------------------
+# finite-state networks for master-equation comparisons: every reaction has #products <= #reactants, so the total
+# molecule count never grows; non-mass-action rates vanish when a (multiplicity-1) reactant is absent.
+def finite_reaction(b, species, types=("massaction", "hill", "general"), safe=False):
+    draw = b.draw
+    S = species
+
+    def pick():
+        return draw(st.sampled_from(S))
+
+    fam = draw(st.sampled_from(["ma"] * 5 + (["hill"] * 2 if "hill" in types else []) + (["general"] * 2 if "general" in types else [])))
+    if fam == "ma":
+        shape = draw(st.sampled_from(["conv", "deg", "dimer", "dimer_deg", "bi", "bi_cat", "tri_rep", "tri3", "cat_conv"]))
+        a, c, e = pick(), pick(), pick()
+        if shape == "conv":
+            return massaction(b, [a], [c] if c != a else [])
+        if shape == "deg":
+            return massaction(b, [a], [])
+        if shape == "dimer":
+            return massaction(b, [a, a], [c])
+        if shape == "dimer_deg":
+            return massaction(b, [a, a], draw(st.sampled_from([[], [a]])))
+        if shape == "bi":
+            return massaction(b, [a, c], [e])
+        if shape == "bi_cat":
+            return massaction(b, [a, c], [a])
+        if shape == "tri_rep":
+            return massaction(b, [a, a, c], draw(st.sampled_from([[e], [a, c], [e, e]])))
+        if shape == "tri3":
+            return massaction(b, [a, a, a], draw(st.sampled_from([[c], [a], []])))
+        return massaction(b, [a, e], [c, e])
+    if fam == "hill":
+        typ = draw(st.sampled_from(list(ref.HILL_TYPES)))
+        a, c, s1 = pick(), pick(), pick()
+        prods = [c] if c != a else []
+        if typ == "hillpositive":
+            return hill(b, typ, [a], prods, a)               # rate vanishes with the consumed species
+        if safe:                                              # safe mode: any type may consume, the interface guards it
+            return hill(b, typ, [a], prods, s1, pick())
+        if typ == "hillnegative":                             # k/(1+..) does not vanish with its reactant: use the
+            typ = "proportionalhillnegative"                  # proportional form outside safe mode
+        return hill(b, typ, [a], prods, s1, a)               # proportional: d is the consumed species
+    a, c, e = pick(), pick(), pick()
+    k = sym(b.new_param(draw(logfl(0.05, 5))))
+    K = sym(b.new_param(draw(logfl(0.3, 8))))
+    shape = draw(st.sampled_from(["mm", "prod_sat", "sq_sat"]))
+    if shape == "mm":
+        return general([a], [c] if c != a else [], ["div", ["mul", k, sym(a)], ["add", K, sym(a)]])
+    if shape == "prod_sat":
+        if a == c:
+            return general([a], [], ["div", ["mul", k, sym(a)], ["add", K, sym(a)]])
+        return general([a, c], [e], ["div", ["mul", k, sym(a), sym(c)], ["add", num(1), sym(a)]])
+    return general([a], [c] if c != a else [], ["div", ["mul", k, sym(a), sym(a)], ["add", K, sym(a)]])
+
+
+@st.composite
+def finite_networks(draw, max_species=3, max_rx=4, max_count=8, types=("massaction", "hill", "general"), min_rx=1,
+                    safe=False):
+    species = draw(species_names(1, max_species))
+    b = Builder(draw, species)
+    for _ in range(draw(st.integers(min_rx, max_rx))):
+        b.reactions.append(finite_reaction(b, species, types, safe))
+    x0 = {s: float(draw(st.integers(0, max_count))) for s in species}
+    if all(v == 0 for v in x0.values()):
+        x0[species[0]] = float(draw(st.integers(1, max_count)))
+    return b.spec(x0)
